@@ -19,10 +19,45 @@ from gym_gridverse.spaces import ActionSpace
 SUB_KEYS = ['transition_functions', 'reward_functions', 'terminating_functions', 'reward_function', 'visibility_function']
 
 
+CONVERTED_KEYS = ('transition_functions', 'reward_functions', 'terminating_functions', 'reward_function',
+                  'visibility_function', 'area', 'object_type', 'colors')
+
+
+def show_val(v):
+    """a bound parameter value in the form the model prints the value given in the description"""
+    from gym_gridverse.geometry import Shape
+
+    if v is None:
+        return 'n'
+    if isinstance(v, bool):
+        return 'b1' if v else 'b0'
+    if isinstance(v, int):
+        return f'i{v}'
+    if isinstance(v, float):
+        m, e = extract_cfg.dec_float(repr(v))
+        return f'f{m}e{e}'
+    if isinstance(v, str):
+        return 's' + v
+    if isinstance(v, Shape):
+        return f'[i{v.height};i{v.width}]'
+    if isinstance(v, (list, tuple)):
+        return '[' + ';'.join(show_val(x) for x in v) + ']'
+    if callable(v) and getattr(v, '__name__', '').endswith('_distance'):
+        return 's' + v.__name__[: -len('_distance')]
+    return None
+
+
+def show_kw(k, v):
+    if k in CONVERTED_KEYS or isinstance(v, dict):
+        return k
+    t = show_val(v)
+    return k if t is None else f'{k}={t}'
+
+
 def describe(p):
     """canonical description of a factory-built component (a functools.partial)"""
     assert isinstance(p, functools.partial), p
-    kws = list(p.keywords.keys())
+    kws = [show_kw(k, v) for k, v in p.keywords.items()]
     subs = []
     for k in SUB_KEYS:
         if k in p.keywords:
@@ -133,6 +168,16 @@ def corruptions(data, rng):
                 yield 'str-replaced', variant(lambda p, r=repl: p.__setitem__(key, r))
         if isinstance(node, float):
             yield 'float-replaced', variant(lambda p: p.__setitem__(key, 'high'))
+            # still valid: another value, zero included (a value, not "left out")
+            for repl in (0.0, -0.0, 0, 1.5, None):
+                yield 'falsy-value', variant(lambda p, r=repl: p.__setitem__(key, r))
+        if isinstance(node, bool):
+            yield 'falsy-value', variant(lambda p: p.__setitem__(key, not node))
+            yield 'falsy-value', variant(lambda p: p.__setitem__(key, 0))
+        if isinstance(node, dict) and 'name' in node and len(node) >= 3:
+            # still valid: the same entry with its parameters written in another order
+            yield 'reorder-params', variant(lambda p: p.__setitem__(key, dict(reversed(list(node.items())))))
+            yield 'reorder-params', variant(lambda p: p.__setitem__(key, dict(list(node.items())[1:] + list(node.items())[:1])))
     d = copy.deepcopy(data)
     d['extra_top_level_key'] = 1
     yield 'extra-top-key', d
@@ -148,8 +193,9 @@ def fam_cfg(seed, shard, nshards, n):
         yield cfg_line(data), real_static(data), 'cfg-shipped'
         cs = list(corruptions(data, rng))
         if n and len(cs) > n:
-            must = [x for x in cs if x[0] in ('reverse-list', 'rotate-list')]
-            cs = must + rng.sample([x for x in cs if x[0] not in ('reverse-list', 'rotate-list')], n)
+            keep = ('reverse-list', 'rotate-list', 'falsy-value', 'reorder-params')
+            must = [x for x in cs if x[0] in keep]
+            cs = must + rng.sample([x for x in cs if x[0] not in keep], n)
         for kind, d in cs:
             if not tokenizable(d):
                 continue
